@@ -52,7 +52,8 @@ CLAIMED = {
              "case, 45 illegal-key cases and thousands of random lists (2..8 elements, 1..3 keys, rendered key spellings) are "
              "executed on TractList/TRSList/PLSSDesc.sort_tracts and TLC compares each observed order with Sort(list, keys).",
         note="Trusted: construction of Tract/TRS objects from abstract shapes; identity of elements by id(). Township/range "
-             "0 and partially interpreted keys ('t.foo') are outside the claim.",
+             "0 is generated with one direction per axis only ('0n' and '0s' tie); partially interpreted keys ('t.foo') are "
+             "outside the claim.",
         design_ref="§5.10, §6 C17"),
     "C01": dict(
         technique="TLA+ grammar of the four documented layouts as a transition system with a denotation, enumerated by "
